@@ -137,6 +137,8 @@ def worker(i, work, q, out_f, lock):
     man = open(f"{VERIF}/sim/Cargo.toml").read().replace("/repo/core", f"{wt}/core").replace("/repo/geom", f"{wt}/geom")
     open(f"{sim}/Cargo.toml", "w").write(man)
     shutil.copy(f"{VERIF}/sim/Cargo.lock", f"{sim}/Cargo.lock")
+    os.makedirs(f"{sim}/.cargo", exist_ok=True)
+    open(f"{sim}/.cargo/config.toml", "w").write('[net]\noffline = true\n[build]\nrustflags = ["--cfg", "retrofire_verif"]\n')
     if not os.path.exists(f"{sim}/src"):
         shutil.copytree(f"{VERIF}/sim/src", f"{sim}/src")
     env_t = {"CARGO_TARGET_DIR": f"{wt}/target"}
